@@ -184,6 +184,11 @@ func (rn *runner) monitor(s *gi.Session, st *gi.Step) {
 		if d := sameMem(expMem, after); d != "" {
 			bad("multi-alloc-partial-after-failure", "memory: "+d)
 		}
+		for _, f := range gi.StoreObjectsTouchedByFailure(st, stAfter) {
+			if !kept[f.IP] {
+				bad(f.Sig, f.What)
+			}
+		}
 		if d := sameStore(expStore, stAfter); d != "" {
 			bad("multi-alloc-partial-after-failure", "store: "+d)
 		}
@@ -314,6 +319,13 @@ func (rn *runner) finish(base *gi.Session, ops []gi.Op, req gi.Op) {
 	st := base.Do(req)
 	rn.Note(&st)
 	rn.monitor(base, &st)
+	if st.Class != "ok" {
+		// the scheduler's retry: the same request again
+		rt := base.Do(req)
+		rn.Note(&rt)
+		rn.monitor(base, &rt)
+		rn.R.Hit("retry-after-failure:" + st.Class + "->" + rt.Class)
+	}
 	rn.Keep(base)
 	ncreate := 0
 	for _, c := range st.Calls {
